@@ -342,6 +342,9 @@ def owner_of_impl(header):
     h = h.split(" where ")[0]
     if " for " in h:
         h = h.split(" for ", 1)[1]
+    ms = re.match(r"\s*&?\s*\[\s*(\w+)\s*\]", h)
+    if ms:
+        return "[" + ms.group(1) + "]"  # slice type: `impl Input for [u8]`
     m = re.match(r"\s*&?\s*(?:'\w+\s+)?(\w+)", h)
     return m.group(1) if m else "?"
 
